@@ -214,19 +214,8 @@ Proof.
     apply Hnd. apply NoDup_app_snoc; assumption.
 Qed.
 
-(* hence: if every canonical ref lies in a finite set U, fuel |U| + 1 is never exhausted *)
-Theorem exp_terminates : forall U d s parents rroot base j,
-  (forall x, canonical_output x -> In x U) -> NoDup parents -> incl parents U ->
-  List.length U < List.length parents + d ->
-  exp E docs cwd OP ctx_base live d s parents rroot base j <> OOF.
-Proof.
-  intros U d s parents rroot base j HU Hnd Hincl Hlen H.
-  destruct (exp_oof _ _ _ _ _ _ H) as [ps [Hl [Hn Hall]]].
-  assert (Hinc : incl (parents ++ ps)%list U).
-  { intros x Hx. apply in_app_or in Hx. destruct Hx as [Hx|Hx]; [apply Hincl; exact Hx|].
-    apply HU. rewrite Forall_forall in Hall. apply Hall. exact Hx. }
-  pose proof (NoDup_incl_length (Hn Hnd) Hinc) as Hle. rewrite app_length in Hle. lia.
-Qed.
+(* the bound this yields is stated relative to the reference graph in ExpandTermG.v (a bound over ALL canonical references
+   would be empty: normalizeURI has infinitely many outputs) *)
 End Prims.
 
 (* ---------- state invariants are carried through the whole traversal ---------- *)
